@@ -6,17 +6,11 @@ import TaRs.Lemmas.Core.EfficiencyRatio
 import TaRs.Gen.EfficiencyRatio
 import TaRs.Lemmas.RsLemmas
 import TaRs.Lemmas.Total.EfficiencyRatio
+import TaRs.Lemmas.Bar.EfficiencyRatio
 namespace TaRs.Gen.EfficiencyRatio
 open TaRs TaRs.Rs
 
 variable {F : Type} [Scalar F]
-
-/-- wiring of the bar path: WHICH field of the bar `next(&bar)` reads (a value-level fact, hence
-    here and not among the value-agnostic totality lemmas) -/
-theorem nextBar_eq (s : EfficiencyRatio F) (b : Bar F) : s.nextBar b = s.next b.close := by
-  unfold nextBar
-  try simp only [gen_helper]
-  cases s.next b.close <;> rfl
 
 /-- one iteration of either `for n in ..` loop: `(volatility, previous)` ↦ `(volatility + |previous - n|, n)` -/
 def volStep (acc : F × F) (n : F) : F × F :=
